@@ -46,6 +46,9 @@ type fsWorld struct {
 }
 
 func newFSWorld(fsname, osname string, umask int) *fsWorld {
+	if fsname == "orefafs" {
+		return newOrefaWorld(osname, umask) // orefa.go
+	}
 	if fsname != "memfs" || osname != "linux" {
 		panic("unsupported fs/os " + fsname + "/" + osname)
 	}
